@@ -288,7 +288,10 @@ class Ctx:
         os.makedirs(os.path.join(VERIF, "evidence"), exist_ok=True)
         with open(os.path.join(VERIF, "evidence", self.prop + ".json"), "w") as f:
             json.dump(ev, f, indent=1)
-        shutil.rmtree(self.scratch, ignore_errors=True)
+        if os.environ.get("VERIF_KEEP") == "1":
+            sys.stderr.write("scratch kept: %s\n" % self.scratch)
+        else:
+            shutil.rmtree(self.scratch, ignore_errors=True)
         print("%s %s: obligations %d/%d, failures %d, known-finding classes %d, %.1fs" % (
             self.prop, self.tier, cov["discharged"], cov["obligations"], len(self.failures),
             len(self.known_hits), time.time() - self.t0))
